@@ -25,16 +25,23 @@ class ShimRewriter {
 const shimPath = path.join(__dirname, 'native_shim.js')
 require.cache[shimPath] = { id: shimPath, filename: shimPath, loaded: true, exports: { Rewriter: ShimRewriter }, children: [], paths: [] }
 
-let pkg = null
+let hooked = false
+// a fresh instance of the package for every history: its caches are module level state
 function loadPackage () {
-  if (pkg) return pkg
-  const origResolve = Module._resolveFilename
-  Module._resolveFilename = function (request, parent, ...rest) {
-    if (request === './wasm/wasm_iast_rewriter' && parent && parent.filename === path.join(REPO, 'main.js')) return shimPath
-    if (request === 'lru-cache') return path.join(__dirname, 'vendor', 'lru-cache.js')
-    return origResolve.call(this, request, parent, ...rest)
+  if (!hooked) {
+    hooked = true
+    const origResolve = Module._resolveFilename
+    Module._resolveFilename = function (request, parent, ...rest) {
+      if (request === './wasm/wasm_iast_rewriter' && parent && parent.filename === path.join(REPO, 'main.js')) return shimPath
+      if (request === 'lru-cache') return path.join(__dirname, 'vendor', 'lru-cache.js')
+      return origResolve.call(this, request, parent, ...rest)
+    }
   }
-  pkg = require(path.join(REPO, 'main.js'))
+  for (const k of Object.keys(require.cache)) {
+    if (k.startsWith(REPO + path.sep)) delete require.cache[k]
+  }
+  table.clear()
+  const pkg = require(path.join(REPO, 'main.js'))
   if (pkg.Rewriter === pkg.DummyRewriter) throw new Error('package fell back to DummyRewriter')
   return pkg
 }
@@ -68,12 +75,19 @@ function invoke (exportsObj, name, handler) {
 function parseStackString (s) {
   const out = []
   for (const line of String(s).split('\n')) {
+    if (!/^\s*at /.test(line)) continue
     const m = /^\s*at (?:(.*?) \()?(.*?):(\d+):(\d+)\)?$/.exec(line)
-    if (!m) continue
-    const ev = /eval at (\S+) \((.*):(\d+):(\d+)\)/.exec(line)
+    if (!m) { out.push({ fn: null, file: null, line: null, col: null, text: line.trim() }); continue }
+    const ev = /eval at (\S+) \((.*?):(\d+):(\d+)\)/.exec(line)
     out.push({ fn: m[1] || null, file: m[2], line: +m[3], col: +m[4], text: line.trim(), evalAt: ev ? { fn: ev[1], file: ev[2], line: +ev[3], col: +ev[4] } : undefined })
   }
   return out
+}
+
+// a wrong location in a file whose latest rewrite was reported "not modified" is a stale cache entry
+function wrongKind (cur) {
+  const st = cur.step.native && cur.step.native.ok && cur.step.native.ok.metrics && cur.step.native.ok.metrics.status
+  return st === 'notmodified' ? 'wrong-location-after-notmodified-rewrite' : 'wrong-location'
 }
 
 function expectFor (step, line) {
@@ -112,13 +126,15 @@ async function run (req) {
         notes.probes++
         // expected: the unrewritten program under the same path, plain V8
         const orig = compileModule(cur.code, step.file)
-        const exp = invoke(orig, step.site, rawHandler)
-        if (!exp.threw || !Array.isArray(exp.stack)) { continue }
         const rewr = compileModule(cur.content, step.file)
         const userFrames = []
         const userHandler = (e, cs) => { for (const c of cs) { userFrames.push({ fn: c.getFunctionName(), file: c.getFileName(), line: c.getLineNumber(), col: c.getColumnNumber(), raw: c.callSite ? { file: c.callSite.getFileName(), line: c.callSite.getLineNumber(), col: c.callSite.getColumnNumber() } : null, isEval: c.isEval() }) } return 'handled' }
-        const gotUser = invoke(rewr, step.site, p.getPrepareStackTrace(userHandler))
-        const gotStr = invoke(rewr, step.site, p.getPrepareStackTrace(undefined))
+        // all three runs are started from the same source line, so that the harness' own frames are identical
+        const runs = [[orig, rawHandler], [rewr, p.getPrepareStackTrace(userHandler)], [rewr, p.getPrepareStackTrace(undefined)]]
+        const outs = []
+        for (const [mod, handler] of runs) outs.push(invoke(mod, step.site, handler))
+        const [exp, gotUser, gotStr] = outs
+        if (!exp.threw || !Array.isArray(exp.stack)) { continue }
         if (gotUser.handlerThrew || gotStr.handlerThrew) { problems.push({ step: i, kind: 'prepare-threw', detail: gotUser.handlerThrew || gotStr.handlerThrew }); continue }
         if (!gotUser.threw || !gotStr.threw) { problems.push({ step: i, kind: 'rewritten-did-not-throw', site: step.site }); continue }
         const E = exp.stack
@@ -130,7 +146,7 @@ async function run (req) {
             const want = expectFor(cur.step, e.line)
             notes.framesChecked++
             if (g.file !== want.path || !(g.line >= want.lo && g.line <= want.hi)) {
-              problems.push({ step: i, kind: 'wrong-location', mode: 'user', site: step.site, frame: k, fn: e.fn, expected: want, got: { file: g.file, line: g.line }, rawRewritten: g.raw })
+              problems.push({ step: i, kind: wrongKind(cur), mode: 'user', site: step.site, frame: k, fn: e.fn, expected: want, got: { file: g.file, line: g.line }, rawRewritten: g.raw })
               break
             }
           } else if (!e.isEval) {
@@ -146,7 +162,7 @@ async function run (req) {
           if (e.file === step.file) {
             const want = expectFor(cur.step, e.line)
             if (g.file !== want.path || !(g.line >= want.lo && g.line <= want.hi)) {
-              problems.push({ step: i, kind: 'wrong-location', mode: 'string', site: step.site, frame: k, fn: e.fn, expected: want, got: { file: g.file, line: g.line, text: g.text } })
+              problems.push({ step: i, kind: wrongKind(cur), mode: 'string', site: step.site, frame: k, fn: e.fn, expected: want, got: { file: g.file, line: g.line, text: g.text } })
               break
             }
           } else if (e.isEval && g.evalAt) {
@@ -159,7 +175,7 @@ async function run (req) {
                 break
               }
             }
-          } else if (!e.isEval) {
+          } else if (!e.isEval && e.file && g.file) {
             if (g.file !== e.file || g.line !== e.line || g.col !== e.col) { problems.push({ step: i, kind: 'foreign-frame-changed', mode: 'string', frame: k, expected: e, got: g }); break }
           }
         }
